@@ -498,17 +498,22 @@ fn near_queries(b: &zoo::Built, seed: u64, info: &mut String) {
         if rng.chance(1, 2) {
             let mut d = String::new();
             let mut ncap = 0;
+            let mut prev = ' ';
             for ch in q.chars() {
                 d.push(ch);
                 if ch == ')' || ch == ']' {
                     if rng.chance(1, 6) {
-                        d.push(*rng.pick(&['+', '?', '*']));
+                        // `+` only after a leaf pattern `(kind)`: ts_query_new does not terminate on a `+` group
+                        // whose content can match nothing, e.g. `((kind)*)+` (observation in notes/C07.md)
+                        let leaf = prev.is_ascii_alphanumeric() || prev == '_';
+                        d.push(*rng.pick(if leaf { &['+', '?', '*'][..] } else { &['?', '*'][..] }));
                     }
                     if rng.chance(1, 3) {
                         ncap += 1;
                         d.push_str(&format!(" @c{ncap}"));
                     }
                 }
+                prev = ch;
             }
             q = d;
         }
@@ -522,8 +527,17 @@ fn near_queries(b: &zoo::Built, seed: u64, info: &mut String) {
             3 => q = q.replace(':', " :: "),
             _ => {}
         }
+        if let Ok(one) = std::env::var("C07_ONE_QUERY") {
+            q = one; // test knob: compile and run exactly this query
+        }
+        if std::env::var("C07_TRACE_Q").is_ok() {
+            eprintln!("query: {q}");
+        }
         let before = LIVE.load(Ordering::SeqCst);
         let res = Query::new(lang, &q);
+        if std::env::var("C07_TRACE_Q").is_ok() {
+            eprintln!("compiled: {}", res.is_ok());
+        }
         let key = match &res {
             Ok(query) => {
                 if let Some(t) = &tree {
